@@ -3,6 +3,7 @@ TU = "c10_tls.c"
 U20 = ["--unwind", "20", "--unwinding-assertions"]
 U1030 = ["--unwind", "1030", "--unwinding-assertions"]
 TREE_FUC = ["myth_tls_tree_get", "myth_tls_tree_set", "myth_tls_tree_node_alloc", "myth_tls_tree_node_alloc_node", "myth_tls_tree_node_alloc_leaf"]
+SMALL = [("myth_tls_tree_depth = 3,", "myth_tls_tree_depth = 1,", 1)]
 U70 = ["--unwind", "70", "--unwinding-assertions"]
 HNOTE = "bounded: tree states reachable from a freshly initialised descriptor (arbitrary pool bytes) by at most %d earlier stores; keys, values and the checked key are symbolic; inner loops bounded by constants of the type and fully unwound"
 JOBS = [
@@ -13,35 +14,26 @@ JOBS = [
       note="complete: any descriptor contents, any key index"),
   Job("c10.ka.init", TU, "h_ka_init", cbmc=U1030, fuc=["myth_tls_key_allocator_init"], timeout=600,
       note="complete by type bound: the 1023-iteration initialisation loop is fully unwound"),
-  Job("c10.ka.alloc", TU, "h_ka_alloc", cbmc=U20, fuc=["myth_tls_key_allocator_alloc"], timeout=600,
-      note="sequential contract (no interference): one pass of the retry loop; the concurrent obligation is c10.ka.alloc.rg"),
-  Job("c10.ka.dealloc", TU, "h_ka_dealloc", cbmc=U20, fuc=["myth_tls_key_allocator_dealloc"], timeout=600),
+  Job("c10.ka.alloc.bounded", TU, "h_ka_alloc", kind="bounded", rewrites=SMALL, cbmc=U20 + ["--unwindset", "myth_tls_key_allocator_alloc.0:2"], fuc=["myth_tls_key_allocator_alloc"], timeout=600,
+      note="bounded: key table reduced to 64 cells (extraction rewrite myth_tls_tree_depth = 3 -> 1; with the real 1024 cells every query ran out of memory); sequential contract (no interference): one pass of the retry loop"),
+  Job("c10.ka.dealloc.bounded", TU, "h_ka_dealloc", kind="bounded", rewrites=SMALL, cbmc=U20 + ["--unwindset", "myth_tls_key_allocator_dealloc.0:2"], fuc=["myth_tls_key_allocator_dealloc"], timeout=600,
+      note="bounded: key table reduced to 64 cells (as above); sequential contract: the CAS succeeds at once, the second iteration is infeasible (unwinding assertion)"),
   Job("c10.key_create", TU, "h_key_create", replace=["myth_ensure_init/ensure_init_contract", "myth_tls_key_allocator_alloc/alloc_contract"],
       fuc=["myth_key_create_body"], timeout=300),
   Job("c10.specific", TU, "h_specific", replace=["myth_ensure_init/ensure_init_contract"], cbmc=U20,
       fuc=["myth_setspecific_body", "myth_getspecific_body", "myth_self_body", "myth_get_current_env"], timeout=600),
 ]
-CELL = lambda i: "(%s < 0 ? 0 : &KA.keys[%s])" % (i, i)
-RANGE = lambda i: "(-1 <= %s && %s < 1024)" % (i, i)
-VIEW_OK = ("(" + RANGE("g_hi") + " && " + RANGE("g_si") + " && " + RANGE("g_mine") + " && 0 <= g_w && g_w < 1024 && " + RANGE("g_ke") +
-           " && KA.free == " + CELL("g_hi") + " && (g_hi >= 0 ==> (KA.keys[g_hi].next == " + CELL("g_si") + " && g_si != g_hi && g_hi != g_mine))"
-           " && (g_hi < 0 ==> g_si == -1) && (g_si < 0 || g_si != g_mine))")
-W_AGREE = "(g_w == g_mine || (KA.keys[g_w].next == g_w_next && KA.keys[g_w].destructor == g_w_d))"
-RG_ASSIGNS = "__CPROVER_object_whole(&KA), g_hi, g_si, g_mine, g_w_next, g_w_d, g_pops, g_pushes, g_popped, g_ke"
-L_ALLOC = {"myth_tls_key_allocator_alloc": [dict(loop_id="0", assigns=RG_ASSIGNS,
-            invariants=VIEW_OK + " && " + W_AGREE + " && g_mine == -1 && g_pops == 0 && g_pushes == 0")]}
-L_DEALLOC = {"myth_tls_key_allocator_dealloc": [dict(loop_id="0", assigns=RG_ASSIGNS,
-            invariants=VIEW_OK + " && " + W_AGREE + " && g_mine >= 0 && g_mine == key && g_pops == 0 && g_pushes == 0 && f == __CPROVER_loop_entry(f)",
-            symbol_map="key,myth_tls_key_allocator_dealloc::key;f,myth_tls_key_allocator_dealloc::1::f")]}
 RG = "c10_keyalloc_rg.c"
 HOOKS = [("free", "myth_verif_rd"), ("next", "myth_verif_rd"), ("destructor", "myth_verif_rd")]
+RGNOTE = ("bounded: at most 2 interfering environment steps (each an arbitrary rebuild of the free list over 4 named cells) per call, "
+          "hence at most 3 passes of the CAS retry loop; key table reduced to 64 cells")
 JOBS += [
-  Job("c10.ka.alloc.rg", RG, "h_alloc", loops=L_ALLOC, loop_counts={"myth_tls_key_allocator_alloc": 1},
-      replace=["myth_verif_env_step/myth_verif_env_step"], read_hooks=HOOKS,
-      fuc=["myth_tls_key_allocator_alloc"], timeout=900, mem_gb=12),
-  Job("c10.ka.dealloc.rg", RG, "h_dealloc", loops=L_DEALLOC, loop_counts={"myth_tls_key_allocator_dealloc": 1},
-      replace=["myth_verif_env_step/myth_verif_env_step"], read_hooks=HOOKS,
-      fuc=["myth_tls_key_allocator_dealloc"], timeout=900, mem_gb=12),
+  Job("c10.ka.alloc.rg.bounded", RG, "h_alloc", kind="bounded", rewrites=SMALL, read_hooks=HOOKS,
+      replace_calls=["myth_spin_lock_body:verif_poplock_lock", "myth_spin_unlock_body:verif_poplock_unlock"], cbmc=["--unwind", "5", "--unwinding-assertions"],
+      fuc=["myth_tls_key_allocator_alloc"], timeout=600, mem_gb=12, note=RGNOTE),
+  Job("c10.ka.dealloc.rg.bounded", RG, "h_dealloc", kind="bounded", rewrites=SMALL, read_hooks=HOOKS,
+      replace_calls=["myth_spin_lock_body:verif_poplock_lock", "myth_spin_unlock_body:verif_poplock_unlock"], cbmc=["--unwind", "5", "--unwinding-assertions"],
+      fuc=["myth_tls_key_allocator_dealloc"], timeout=600, mem_gb=12, note=RGNOTE),
 ]
 META = {
  "level": "proof",
